@@ -1,5 +1,12 @@
 package main
 
+import (
+	"fmt"
+	"strings"
+
+	"verifharness/mon"
+)
+
 // plans maps each property to the stages (build configuration x monitor mode) that decide
 // it, the case-generation rule reported in the evidence, and the assumptions.
 var commonAssumptions = []string{
@@ -35,4 +42,52 @@ func init() {
 	plans["C15"] = simple("enumerated: every exported Point operation x every non-empty subset of its Point-typed input positions set to a zero-value Point (other inputs from the generators, receiver zero/identity/generator) must panic; multi-scalar routines with a zero-value element at each index for n=1..5 (also when its scalar is 0) and all length pairs (n,m), n!=m<=4 incl. nil vs empty must panic; every operation with a zero-value Point as pure receiver must succeed and match the model; Set is exempt. distinct by (operation, positions, other inputs).", 5000)
 	plans["C16"] = simple("(u,v) classes: (0,0), (0,v), (u,0), u/v square, non-square, u=+-v, u=+-i*v, v=1, small values, the (u,v) point decoding produces, class values, uniform; each operand in a random reachable limb recipe; receiver fresh, aliased to u, aliased to v; (value of r, wasSquare) compared with an Euler-criterion + ModSqrt oracle written from the specification text, r must be even, returned pointer must be the receiver. non-trivial = (u,v) != (0,0); distinct by (alias, u, v, recipes).", 10000)
 	plans["C17"] = simple("four fifths: whole-group points (identity in all forms, order-2/order-4 points, [k]B+T_j, uniform decoded) built through a random public-API route; output compared with LE((1+y)/(1-y)) computed in big integers, and with the output for -P; one fifth: random and patterned 32-byte k through SetBytesWithClamping+ScalarBaseMult compared with the crypto/ecdh X25519 public key. non-trivial = not the identity; distinct by (encoding, route) / k.", 5000)
+}
+
+// digestsAgree: every worker process reports the digest of all package-level state at its
+// end (tables built); processes with different histories must agree variable by variable.
+func digestsAgree(rc *runCfg, pl *plan, m *merged) error {
+	ref := map[string]string{}
+	refWho := ""
+	n := 0
+	for k, v := range m.extra {
+		if !strings.HasSuffix(k, "/final-globals-digest") {
+			continue
+		}
+		dm, ok := v.(map[string]any)
+		if !ok {
+			continue
+		}
+		n++
+		if refWho == "" {
+			refWho = k
+			for name, d := range dm {
+				ref[name] = fmt.Sprint(d)
+			}
+			continue
+		}
+		for name, d := range dm {
+			if ref[name] != fmt.Sprint(d) {
+				m.violations = append(m.violations, taggedViolation{Violation: mon.Violation{Case: -1, Kind: "package-level state differs between processes that ran different histories",
+					Detail: map[string]any{"variable": name, "process-a": refWho, "process-b": k, "a": ref[name], "b": fmt.Sprint(d)}}, Config: "default"})
+				break
+			}
+		}
+		delete(m.extra, k)
+	}
+	if n >= 2 {
+		m.extra["processes whose final package-state digests were compared"] = n
+		m.extra["variables in the digest"] = len(ref)
+	} else if n == 0 {
+		m.addInconclusive("globals digest hook not available: cross-process package-state comparison not done")
+	}
+	return nil
+}
+
+func init() {
+	plans["C11"] = simple("half of the cases walk the table of every exported method of Element (16), Scalar (9) and Point (10) crossed with ALL set partitions of {receiver, same-typed pointer arguments} (108 combinations): each block of the partition gets one generated value; the call is run once with one object per block (aliased) and once with one object per position (distinct storage) and results/outputs must agree, returned pointer must be the receiver, and every object not written by contract is compared bit for bit before/after; a quarter drive MultiScalarMult/VarTimeMultiScalarMult with the receiver among the points, repeated points and repeated scalars (result vs model, slice elements and pointees unchanged); a quarter call the six byte-slice setters on a slice embedded in a larger buffer and compare the whole buffer. distinct by (method, partition, values).", 10000)
+	plans["C12"] = simple("programs of 30-200 steps over a pool of 6 Points and 4 Scalars; each step is a random exported operation (all arithmetic, all five multiplications incl. multi-scalar with 0-3 terms, Set, both decoders with valid/non-canonical/invalid input, constructors, readers, scalar arithmetic) whose receiver is an existing slot (possibly one of its arguments) or a fresh zero value; after every step: returned pointer, exported coordinates (Z!=0, curve equation, XY=ZT in big integers), affine point and Bytes against the shadow model, limb bound, every other slot bit-for-bit unchanged; every 16 steps all ordered pairs of the pool are compared with Equal against the model and the package-globals digest against the post-warm-up snapshot. every step is one evaluation; distinct by (step, raw argument snapshots).", 20000)
+	plans["C12"].custom = digestsAgree
+	plans["C19"] = simple("programs of 20-120 steps of the history engine with mutation steps interleaved (1 in 4): overwriting previously returned Bytes/BytesMontgomery/Scalar.Bytes slices, ExtendedCoordinates elements (via Set and raw), Points returned by NewIdentityPoint/NewGeneratorPoint (Set, Add, raw limbs), NewScalar results, One()/Zero() receivers; each mutation is followed by a probe round with model-known answers ([k]B through ScalarBaseMult, VarTimeDoubleScalarBaseMult and ScalarMult on a fresh generator, constructors, a decode, SqrtRatio(2,1), Bytes of all pool members) and a package-globals digest comparison; returned slices/elements are checked not to share memory with each other or with the Point; repeated (operation, argument values) observations must give identical bytes; in every second worker process the first use of the precomputed tables happens after mutations. distinct by (step or probe, values).", 10000)
+	plans["C19"].custom = digestsAgree
 }
